@@ -32,7 +32,13 @@ fn hexs(v: &Value) -> String {
 fn artifacts(v: &Value) -> Value {
     let mut m = serde_json::Map::new();
     for (p, dg) in v.as_object().unwrap() {
-        m.insert(p.clone(), json!({"sha256": hexs(dg)}));
+        if let Some(o) = dg.as_object() {
+            let mut d = serde_json::Map::new();
+            for (alg, bytes) in o { d.insert(alg.clone(), Value::String(hexs(bytes))); }
+            m.insert(p.clone(), Value::Object(d));
+        } else {
+            m.insert(p.clone(), json!({"sha256": hexs(dg)}));
+        }
     }
     Value::Object(m)
 }
@@ -73,8 +79,7 @@ fn layout_meta(pool: &Pool, l: &Value, now: chrono::DateTime<chrono::Utc>, now_s
         keys.insert(KeyId::from_str(&id).unwrap(), pool.public(stored));
     }
     // expiry relative to the real clock: same ordering as in the scenario, with a safety margin on the unexpired side
-    let delta = l["expires_secs"].as_i64().unwrap() - now_secs;
-    let delta = delta.clamp(-400_000_000, 400_000_000);
+    let delta = (l["expires_secs"].as_i64().unwrap() as i128 - now_secs as i128).clamp(-400_000_000, 400_000_000) as i64;
     let nanos_later = l["expires_nanos"].as_u64().unwrap_or(0) > 0;
     let expires = if delta > 0 || (delta == 0 && nanos_later) {
         now + chrono::Duration::seconds(delta + 30)
@@ -84,6 +89,8 @@ fn layout_meta(pool: &Pool, l: &Value, now: chrono::DateTime<chrono::Utc>, now_s
     } else {
         now + chrono::Duration::seconds(delta)
     };
+    // sequences of verifications: expiry placed explicitly relative to the real clock
+    let expires = match l["expires_in_ms"].as_i64() { Some(ms) => chrono::Utc::now() + chrono::Duration::milliseconds(ms), None => expires };
     let mut readme = l["readme"].as_str().unwrap_or("").to_string();
     if altered {
         readme.push_str("altered-after-signing");
@@ -162,6 +169,7 @@ pub fn run(pool: &Pool, sc: &Value) -> Value {
     let old = std::env::current_dir().ok();
     std::env::set_current_dir(&cwd).unwrap();
     let link_dir = root.join("links");
+    if let Some(ms) = sc["delay_verification_ms"].as_u64() { std::thread::sleep(std::time::Duration::from_millis(ms)); }
     for _ in 0..reps {
         let mut ck: HashMap<KeyId, PublicKey> = HashMap::new();
         for c in sc["caller_keys"].as_array().unwrap() {
@@ -186,4 +194,14 @@ pub fn run(pool: &Pool, sc: &Value) -> Value {
     let _ = std::fs::remove_dir_all(&root);
     let first = if outcomes[0].starts_with("panic") { "panic".to_string() } else { outcomes[0].clone() };
     json!({"outcome": first, "outcomes": outcomes, "summaries": summaries, "events": events})
+}
+
+/// two verifications in one process: the first at once, the second after `sleep_ms`
+pub fn run_sequence(pool: &Pool, sc: &Value) -> Value {
+    // both layouts are built now (their expiries are relative to this moment); only the second *verification* is delayed
+    let first = run(pool, &sc["first"]);
+    let _ = first;
+    let mut second = sc["second"].clone();
+    second["delay_verification_ms"] = sc["sleep_ms"].clone();
+    run(pool, &second)
 }
